@@ -96,6 +96,12 @@ class SimLoop(base_events.BaseEventLoop):
     def time(self):
         return self._now
 
+    def stall(self, seconds: float):
+        """The whole process is blocked for `seconds` (a hook that blocks, a suspended laptop, a GC pause): the clock
+        moves on inside the current callback; every timer and delivery that came due meanwhile runs afterwards, in
+        deadline order, exactly as asyncio does after a blocking call."""
+        self._now += max(0.0, float(seconds))
+
     def call_at(self, when, callback, *args, context=None):
         if when is None:
             raise TypeError("when cannot be None")
